@@ -50,20 +50,43 @@ pub struct ChunkReader {
     pub turn: usize,
     pub fail_at: Option<usize>,
 }
+thread_local! {
+    /// what each call of `read` did, in the event vocabulary of the model's chunked reader
+    /// (g<k>: at most k+1 bytes; i: interrupted; f: failed); cleared by the caller
+    pub static READ_LOG: std::cell::RefCell<Vec<String>> = std::cell::RefCell::new(Vec::new());
+    /// every n-th call reports ErrorKind::Interrupted first (0: never)
+    pub static INTERRUPT_EVERY: std::cell::Cell<usize> = std::cell::Cell::new(0);
+}
 impl Read for ChunkReader {
     fn read(&mut self, buf: &mut [u8]) -> std::io::Result<usize> {
-        let mut n = buf.len().min(self.schedule[self.turn % self.schedule.len()].max(1)).min(self.data.len() - self.pos);
+        let every = INTERRUPT_EVERY.with(|c| c.get());
+        if every > 0 && self.turn % every == every - 1 && buf.len() > 0 {
+            // an interruption consumes a turn of the schedule, nothing else
+            self.turn += 1;
+            READ_LOG.with(|l| l.borrow_mut().push("i".into()));
+            return Err(std::io::Error::new(std::io::ErrorKind::Interrupted, "interrupted"));
+        }
+        let mut cap = self.schedule[self.turn % self.schedule.len()].max(1);
         self.turn += 1;
         if let Some(k) = self.fail_at {
             if self.pos >= k {
+                READ_LOG.with(|l| l.borrow_mut().push("f".into()));
                 return Err(std::io::Error::new(std::io::ErrorKind::Other, "injected"));
             }
-            n = n.min(k - self.pos);
+            cap = cap.min(k - self.pos);
         }
+        let n = buf.len().min(cap).min(self.data.len() - self.pos);
+        READ_LOG.with(|l| l.borrow_mut().push(format!("g{}", cap.min(buf.len().max(1)) - 1)));
         buf[..n].copy_from_slice(&self.data[self.pos..self.pos + n]);
         self.pos += n;
         Ok(n)
     }
+}
+fn take_log() -> String {
+    READ_LOG.with(|l| {
+        let v = std::mem::take(&mut *l.borrow_mut());
+        if v.is_empty() { "-".to_string() } else { v.join(",") }
+    })
 }
 
 fn schedules(r: &mut Rng) -> Vec<Vec<usize>> {
@@ -171,8 +194,19 @@ fn check_reader(o: &mut Out, r: &mut Rng, t: &Ty, v: &Val) {
         for scratch_len in [need, need + 1, need + 5] {
             let mut scratch = vec![0xEEu8; scratch_len];
             let rd = ChunkReader { data: stream.clone(), pos: 0, schedule: sched.clone(), turn: 0, fail_at: None };
+            // every third read call is interrupted first when the scratch is the roomy one
+            INTERRUPT_EVERY.with(|c| c.set(if scratch_len == need + 5 { 3 } else { 0 }));
+            take_log();
             let got = guarded(|| with_ty(t, || postcard::from_io::<Dyn, _>((rd, &mut scratch)).map(|(d, (rd, unused))| (d.0, rd.pos, unused.len()))));
+            INTERRUPT_EVERY.with(|c| c.set(0));
+            let events = take_log();
             o.eval(&("r", &ts, &stream, &sched, scratch_len), !plain.is_empty());
+            if let Ok(Ok((back, pos, unused))) = &got {
+                if events.len() < 4000 {
+                    // the model's chunked reader, driven by the events this reader produced
+                    o.case("fromioc", &[&ts, &hex(&stream), &events, &scratch_len.to_string()], &format!("ok {} {} {} {}", back, hex(&stream[*pos..]), scratch_len - unused, hex(&scratch)));
+                }
+            }
             match got {
                 Ok(Ok((back, pos, unused))) => {
                     if back != *v {
@@ -233,7 +267,14 @@ fn check_reader(o: &mut Out, r: &mut Rng, t: &Ty, v: &Val) {
         let mut scratch = vec![0xEEu8; need + 1];
         let all_s = schedules(r);
         let rd = ChunkReader { data: stream.clone(), pos: 0, schedule: r.pick(&all_s).clone(), turn: 0, fail_at: Some(k) };
+        take_log();
         let got = guarded(|| with_ty(t, || postcard::from_io::<Dyn, _>((rd, &mut scratch)).map(|(d, _)| d.0)));
+        let events = take_log();
+        if k % 3 == 1 && events.len() < 4000 {
+            if let Ok(Err(e)) = &got {
+                o.case("fromioc", &[&ts, &hex(&stream), &events, &(need + 1).to_string()], &format!("err:{:?}", e));
+            }
+        }
         o.eval(&("rf", &ts, &stream, k), true);
         match &got {
             Ok(Err(postcard::Error::DeserializeUnexpectedEnd)) => {}
